@@ -26,6 +26,8 @@ pub enum POp {
     /// add recording device #n (harness index) at these ports; refuse flags for its first calls
     Add { addrs: Vec<u16>, read_refuse: Vec<u32>, write_refuse: Vec<u32> },
     Remove(u16),
+    /// add the library's own `NullDevice` at these ports (a device slot that is empty from the start)
+    AddNull { addrs: Vec<u16> },
     SetKb,
     SetDisp,
     Mmap(u16, IReg),
@@ -58,7 +60,7 @@ fn small_alphabet(i: u64) -> POp {
         8 => POp::Write { addr: P1, data: 0x1357, privileged: true },
         9 => POp::Read { addr: P2, privileged: true, eff: true },
         10 => POp::Write { addr: P2, data: 0x2468, privileged: true },
-        _ => POp::Add { addrs: vec![], read_refuse: vec![], write_refuse: vec![] },
+        _ => POp::AddNull { addrs: vec![P1] },
     }
 }
 const SMALL_N: u64 = 12;
@@ -69,6 +71,7 @@ fn exhaustive_count(max_len: u32) -> u64 {
 struct RefPorts {
     owner: BTreeMap<u16, u16>,
     live: BTreeMap<u16, u16>, // library id -> harness recorder index
+    null_ids: BTreeSet<u16>,
     next_id: u16,
     iregs: BTreeMap<u16, IReg>,
     mirror: BTreeMap<u16, u16>,
@@ -82,7 +85,7 @@ impl C32 {
     fn run(&self, s: &C32Scn, out: &mut Outcome) -> Option<Violation> {
         let log = Log::new();
         let mut sim = Simulator::new(lc3_ensemble::sim::SimFlags { machine_init: lc3_ensemble::sim::mem::MachineInitStrategy::Known { value: 0 }, ..Default::default() });
-        let mut m = RefPorts { owner: BTreeMap::new(), live: BTreeMap::new(), next_id: 3, iregs: BTreeMap::new(), mirror: BTreeMap::new(), pc: 0x3000, psr: 0x8002, mcr: false, ssp: 0x3000 };
+        let mut m = RefPorts { owner: BTreeMap::new(), live: BTreeMap::new(), null_ids: BTreeSet::new(), next_id: 3, iregs: BTreeMap::new(), mirror: BTreeMap::new(), pc: 0x3000, psr: 0x8002, mcr: false, ssp: 0x3000 };
         for p in [0xFE00, 0xFE02] {
             m.owner.insert(p, 1);
         }
@@ -99,7 +102,7 @@ impl C32 {
                 return Some(Violation { class: $c.to_string(), step: $i as u64, detail: format!("op #{} {:?}: {}", $i, s.ops[$i], $d) })
             };
         }
-        let mk = |ix: u16, rr: &[u32], wr: &[u32], log: &Log| ScriptDev::new(ix, log.clone(), ScriptSpec { ports: vec![], vect: 0, prio: 0, raises: vec![], externals: vec![], read_refuse: rr.to_vec(), write_refuse: wr.to_vec(), read_base: ix.wrapping_mul(0x1111), mcr_clear: vec![] }, None);
+        let mk = |ix: u16, rr: &[u32], wr: &[u32], log: &Log| ScriptDev::new(ix, log.clone(), ScriptSpec { ports: vec![], vect: 0, prio: 0, raises: vec![], externals: vec![], read_refuse: rr.to_vec(), write_refuse: wr.to_vec(), read_base: ix.wrapping_mul(0x1111), mcr_clear: vec![], wrap: 0 }, None);
         for (i, op) in s.ops.iter().enumerate() {
             let _ = log.take();
             match op {
@@ -134,13 +137,38 @@ impl C32 {
                     if let Err(p) = guarded(|| sim.device_handler.remove_device(*id)) {
                         fail!(i, "panic-in-remove_device", p);
                     }
-                    if m.live.remove(id).is_some() || *id <= 2 {
+                    if m.live.remove(id).is_some() || m.null_ids.remove(id) || *id <= 2 {
                         removes += 1;
                     }
                     if *id > 2 {
                         m.owner.retain(|_, o| *o != *id);
                     }
                     fp.add(2);
+                }
+                POp::AddNull { addrs } => {
+                    let r = match guarded(|| sim.device_handler.add_device(lc3_ensemble::sim::device::NullDevice, addrs)) {
+                        Ok(r) => r.map_err(|_| ()),
+                        Err(p) => fail!(i, "panic-in-add_device", p),
+                    };
+                    let ok = addrs.iter().all(|a| *a >= 0xFE00 && !m.owner.contains_key(a));
+                    match (r, ok) {
+                        (Ok(id), true) => {
+                            if id != m.next_id {
+                                fail!(i, "device-id", format!("add_device returned id {id}, model expects {}", m.next_id));
+                            }
+                            for a in addrs {
+                                m.owner.insert(*a, id);
+                            }
+                            // owns its ports but never answers: no recorder behind it
+                            m.null_ids.insert(id);
+                            m.next_id += 1;
+                            adds_ok += 1;
+                        }
+                        (Err(()), false) => {}
+                        (Ok(id), false) => fail!(i, "add-accepted", format!("add_device(NullDevice) succeeded (id {id}) although a requested port is not a free I/O address")),
+                        (Err(()), true) => fail!(i, "add-rejected", "add_device(NullDevice) failed although every requested port is a free I/O address".to_string()),
+                    }
+                    fp.add(8);
                 }
                 POp::SetKb | POp::SetDisp => {
                     let ix = recorder;
@@ -361,7 +389,7 @@ impl Check for C32 {
                     POp::Add { addrs: a, read_refuse: sorted((0..r.below(2)).map(|_| r.below(3) as u32).collect()), write_refuse: sorted((0..r.below(2)).map(|_| r.below(3) as u32).collect()) }
                 }
                 3 | 4 => POp::Remove(*r.pick(&[0u16, 1, 2, 3, 3, 4, 4, 5, 6, 7, 9, 200])),
-                5 => POp::SetKb,
+                5 => if r.chance(1, 3) { POp::AddNull { addrs: (0..1 + r.below(2)).map(|_| addr(r)).collect() } } else { POp::SetKb },
                 6 => POp::SetDisp,
                 7 => POp::Mmap(addr(r), *r.pick(&[IReg::PC, IReg::PSR, IReg::MCR, IReg::SavedSP])),
                 8 => POp::Munmap(addr(r)),
@@ -710,7 +738,7 @@ pub fn c29_file(seed: u64, id: usize) -> tgen::GenFile {
         blocks.push((0x3000, 3));
     }
     let crlf = r.bool();
-    tgen::gen_file(&mut r, &tgen::FileOpts { id, blocks, shared: vec![], exotic: false, crlf, ext_place: 0, max_blkw: 6 })
+    tgen::gen_file(&mut r, &tgen::FileOpts { id, blocks, shared: vec![], exotic: false, crlf, ext_place: 0, max_blkw: 6, pin_first: false })
 }
 
 impl C29 {
